@@ -664,4 +664,187 @@ theorem parseL_toValL (pack : Id → Val) (unpack : Val → Option Id) (hp : ∀
     simp [Label.toValL, parseLabelL, h1, h2]
 end
 
+/-! ### an invariant of whole conversations
+
+Between two steps of a conversation nothing is in flight, so the counts of Part 1 balance directly: what an end's
+table holds for a key is what the other end's live proxy of it will release. -/
+
+/-- one lending direction at rest: the holder's proxies are well identified, none counts zero, and the owner's table
+(`t`) holds for every key exactly what the holder's live proxy counts -/
+structure HalfInv (t : Tbl) (q : Side) : Prop where
+  px : PxInv q
+  pos : ∀ k, q.px k ≠ some 0
+  bal : ∀ k, val (t k) = cnt (q.px k)
+
+theorem HalfInv.congr {t : Tbl} {q q' : Side} (h : HalfInv t q) (h1 : q'.px = q.px) (h2 : q'.pid = q.pid)
+    (h3 : q'.next = q.next) : HalfInv t q' :=
+  ⟨⟨by intro k hk; rw [h1] at hk; rw [h2, h3]; exact h.px.below k hk,
+    by intro j k hj hk hjk; rw [h1] at hj hk; rw [h2] at hjk; exact h.px.distinct j k hj hk hjk⟩,
+   by intro k; rw [h1]; exact h.pos k, by intro k; rw [h1]; exact h.bal k⟩
+
+theorem halfInv_init : HalfInv Side.init.tbl Side.init :=
+  ⟨pxInv_init, by intro k; simp [Side.init, Tbl.empty], by intro k; simp [Side.init, Tbl.empty, val, cnt]⟩
+
+theorem set_none_live (p : Tbl) (id k : Id) (h : (p.set id none) k ≠ none) : k ≠ id ∧ p k ≠ none := by
+  by_cases e : k = id
+  · subst e; simp at h
+  · exact ⟨e, by simpa [Tbl.set_other _ _ e] using h⟩
+
+/-- a value travels from `o` to `q`: both directions stay balanced -/
+theorem xfer_inv (o q o1 q1 : Side) (x y : PyVal) (l : Label) (hx : xfer o q x = .ok (l, y, o1, q1))
+    (h1 : HalfInv o.tbl q) (h2 : HalfInv q.tbl o) : HalfInv o1.tbl q1 ∧ HalfInv q1.tbl o1 := by
+  unfold xfer at hx
+  cases hb : box o.tbl x with
+  | error e => simp only [hb] at hx; cases hx
+  | ok p =>
+    obtain ⟨l', t⟩ := p
+    simp only [hb] at hx
+    cases hu : unbox q l' with
+    | error e => simp only [hu] at hx; cases hx
+    | ok r =>
+      obtain ⟨y', q'⟩ := r
+      simp only [hu, Except.ok.injEq, Prod.mk.injEq] at hx
+      obtain ⟨rfl, rfl, rfl, rfl⟩ := hx
+      obtain ⟨hpx, htbl⟩ := unbox_counts l' q q' y' hu
+      obtain ⟨hk, _, _⟩ := unbox_keeps l' q q' y' hu h1.px
+      constructor
+      · refine ⟨hk, ?_, ?_⟩
+        · rw [hpx]; exact recvAll_ne_zero _ _ h1.pos
+        · intro k
+          have := h1.bal k
+          rw [hpx, box_adds x o.tbl t l' hb, val_addAll, cnt_recvAll]
+          omega
+      · rw [htbl]
+        exact h2.congr rfl rfl rfl
+
+/-- the holder `q` finalizes its proxy of `id` and the owner `o` processes the release: both directions stay balanced -/
+theorem release_inv (o q : Side) (id : Id) (h1 : HalfInv o.tbl q) (h2 : HalfInv q.tbl o) :
+    HalfInv (release o q id).1.tbl (release o q id).2 ∧ HalfInv (release o q id).2.tbl (release o q id).1 := by
+  unfold release
+  cases hp : q.px id with
+  | none => exact ⟨h1, h2⟩
+  | some c =>
+    have hc : 1 ≤ c := by
+      have := cnt_pos_of_ne_zero (h1.pos id) (by rw [hp]; simp)
+      simpa [hp, cnt] using this
+    have hb := h1.bal id
+    rw [hp] at hb
+    simp only [cnt] at hb
+    cases ht : o.tbl id with
+    | none => rw [ht] at hb; simp [val] at hb; omega
+    | some m =>
+      rw [ht] at hb
+      simp only [val] at hb
+      have hq' : HalfInv (o.tbl.set id (dropBy m c)) { q with px := q.px.set id none } := by
+        refine ⟨⟨?_, ?_⟩, ?_, ?_⟩
+        · intro k hk
+          exact h1.px.below k (set_none_live q.px id k hk).2
+        · intro j k hj hk hjk
+          exact h1.px.distinct j k (set_none_live q.px id j hj).2 (set_none_live q.px id k hk).2 hjk
+        · intro k
+          by_cases e : k = id
+          · subst e; simp
+          · simp only [Tbl.set_other _ _ e]; exact h1.pos k
+        · intro k
+          by_cases e : k = id
+          · subst e
+            simp only [Tbl.set_same, val_dropBy, cnt]
+            omega
+          · simp only [Tbl.set_other _ _ e]; exact h1.bal k
+      simp only [Tbl.decref, ht]
+      exact ⟨hq', h2.congr rfl rfl rfl⟩
+
+theorem releaseAll_inv (ids : List Id) (o q : Side) (h1 : HalfInv o.tbl q) (h2 : HalfInv q.tbl o) :
+    HalfInv (releaseAll o q ids).1.tbl (releaseAll o q ids).2 ∧ HalfInv (releaseAll o q ids).2.tbl (releaseAll o q ids).1 := by
+  induction ids generalizing o q with
+  | nil => exact ⟨h1, h2⟩
+  | cons id ids ih =>
+    obtain ⟨a, b⟩ := release_inv o q id h1 h2
+    have := ih (release o q id).1 (release o q id).2 a b
+    simpa [releaseAll, List.foldl] using this
+
+/-- both lending directions of a conversation at rest -/
+def ConvInv (c : Conv) : Prop := HalfInv c.a.tbl c.b ∧ HalfInv c.b.tbl c.a
+
+theorem convInv_init : ConvInv Conv.init := ⟨halfInv_init, halfInv_init⟩
+
+theorem convInv_send (c : Conv) (x : PyVal) (keep : Bool) (seen : Seen) (c' : Conv) (h : ConvInv c)
+    (hs : c.send x keep = .ok (seen, c')) : ConvInv c' := by
+  unfold Conv.send at hs
+  cases hx : xfer c.a c.b x with
+  | error e => simp only [hx] at hs; cases hs
+  | ok r =>
+    obtain ⟨l, y, a1, b1⟩ := r
+    simp only [hx] at hs
+    obtain ⟨i1, i2⟩ := xfer_inv c.a c.b a1 b1 x y l hx h.1 h.2
+    cases keep with
+    | true =>
+      simp only [if_true, Except.ok.injEq, Prod.mk.injEq] at hs
+      obtain ⟨_, rfl⟩ := hs
+      exact ⟨i1, i2⟩
+    | false =>
+      simp only [Bool.false_eq_true, if_false, Except.ok.injEq, Prod.mk.injEq] at hs
+      obtain ⟨_, rfl⟩ := hs
+      exact releaseAll_inv _ a1 b1 i1 i2
+
+theorem convInv_echo (c : Conv) (x : PyVal) (seen : Seen) (c' : Conv) (h : ConvInv c)
+    (hs : c.echo x = .ok (seen, c')) : ConvInv c' := by
+  unfold Conv.echo at hs
+  cases hx : xfer c.a c.b x with
+  | error e => simp only [hx] at hs; cases hs
+  | ok r =>
+    obtain ⟨l, y, a1, b1⟩ := r
+    simp only [hx] at hs
+    obtain ⟨i1, i2⟩ := xfer_inv c.a c.b a1 b1 x y l hx h.1 h.2
+    cases hx2 : xfer b1 a1 y with
+    | error e => simp only [hx2] at hs; cases hs
+    | ok r2 =>
+      obtain ⟨l2, z, b2, a2⟩ := r2
+      simp only [hx2, Except.ok.injEq, Prod.mk.injEq] at hs
+      obtain ⟨_, rfl⟩ := hs
+      obtain ⟨j1, j2⟩ := xfer_inv b1 a1 b2 a2 y z l2 hx2 i2 i1
+      obtain ⟨k1, k2⟩ := releaseAll_inv (transient l c.heldB) a2 b2 j2 j1
+      obtain ⟨m1, m2⟩ := releaseAll_inv (transient l2 c.heldA) _ _ k2 k1
+      exact ⟨m2, m1⟩
+
+theorem convInv_make (c : Conv) (id : Id) (seen : Seen) (c' : Conv) (h : ConvInv c)
+    (hs : c.make id = .ok (seen, c')) : ConvInv c' := by
+  unfold Conv.make at hs
+  cases hx : xfer c.b c.a (.obj id) with
+  | error e => simp only [hx] at hs; cases hs
+  | ok r =>
+    obtain ⟨l, y, b1, a1⟩ := r
+    simp only [hx, Except.ok.injEq, Prod.mk.injEq] at hs
+    obtain ⟨_, rfl⟩ := hs
+    obtain ⟨i1, i2⟩ := xfer_inv c.b c.a b1 a1 (.obj id) y l hx h.2 h.1
+    exact ⟨i2, i1⟩
+
+theorem convInv_forget (c : Conv) (h : ConvInv c) : ConvInv c.forget := by
+  unfold Conv.forget
+  exact releaseAll_inv c.heldB c.a c.b h.1 h.2
+
+theorem convInv_step (c : Conv) (op : ConvOp) (h : ConvInv c) : ConvInv (c.step op) := by
+  cases op with
+  | send keep x =>
+    simp only [Conv.step]
+    cases hs : c.send x keep with
+    | error e => exact h
+    | ok r => exact convInv_send c x keep r.1 r.2 h hs
+  | echo x =>
+    simp only [Conv.step]
+    cases hs : c.echo x with
+    | error e => exact h
+    | ok r => exact convInv_echo c x r.1 r.2 h hs
+  | make id =>
+    simp only [Conv.step]
+    cases hs : c.make id with
+    | error e => exact h
+    | ok r => exact convInv_make c id r.1 r.2 h hs
+  | forget => exact convInv_forget c h
+
+theorem convInv_run (ops : List ConvOp) (c : Conv) (h : ConvInv c) : ConvInv (Conv.run c ops) := by
+  induction ops generalizing c with
+  | nil => exact h
+  | cons op ops ih => exact ih _ (convInv_step c op h)
+
 end Rpyc.Box
